@@ -1114,6 +1114,8 @@ inline void run_step(JW& j, const Step& st, std::unique_ptr<Document>& doc_out, 
     // file based entries
     std::string fname = workdir + "/in-" + std::to_string(getpid()) + "-" + std::to_string(idx);
     auto write_file = [&] {
+        if (st.has("nofile"))
+            return;  // the file is deliberately missing
         std::ofstream o(fname, std::ios::binary);
         o.write(input.data(), input.size());
     };
